@@ -9,11 +9,19 @@
    local  : LocalStorageBackend over a directory tree (files + directories; makedirs on write, os.walk,
             os.path.exists true for directories, os.remove refusing directories).
 
+   Open k prog : open_seekable(k) and a seek/read program (Model/Range.v) on the reader it returns -- one
+            operation of the history, so that it interleaves with writes, overwrites and deletes of the same key
+            on the same backend.  spec / local: a plain file holding the key's CURRENT content.  s3: a HEAD for
+            the size (the path and the key are open_seekable's own wiring, REGENERATED as Gen/GenRange.v
+            gen_open_size_path / gen_open_key), then S3RangeFile with that size whose every read is a ranged GET
+            against the bucket.
+   Stream k : open_file(k).read().
+
    Keys of the contract are lists of path segments; the backends receive the "/"-joined string, as the
    library does.  Listing order is an artefact of the representation (insertion order); the harness
    compares listings as sorted lists.  Definitions only. *)
 From Coq Require Import List Bool Ascii String Arith ZArith.
-Require Import DS.Model.Str DS.Gen.GenS3.
+Require Import DS.Model.Str DS.Gen.GenS3 DS.Gen.GenRange DS.Model.Range.
 Import ListNotations.
 
 Definition bytes := list ascii.
@@ -28,9 +36,11 @@ Inductive op (K : Type) :=
 | ListDir (d : K)
 | Delete (k : K)
 | Size (k : K)
-| Mtime (k : K).
+| Mtime (k : K)
+| Open (k : K) (prog : list rop)
+| Stream (k : K).
 Arguments Write {K}. Arguments Read {K}. Arguments Exists {K}. Arguments ListDir {K}.
-Arguments Delete {K}. Arguments Size {K}. Arguments Mtime {K}.
+Arguments Delete {K}. Arguments Size {K}. Arguments Mtime {K}. Arguments Open {K}. Arguments Stream {K}.
 
 Inductive obs :=
 | OUnit                     (* returned None / a timestamp we do not compare *)
@@ -39,12 +49,14 @@ Inductive obs :=
 | OList (l : list str)
 | OSize (n : Z)
 | OSizeDir                  (* local get_size on a directory: a file-system dependent number *)
+| OOpened (os : list (@robs ascii)) (final : Z)   (* what the program observed on the reader, and where it ended *)
 | OErr (e : errk).
 
 Definition map_op {K K'} (f : K -> K') (o : op K) : op K' :=
   match o with
   | Write k v => Write (f k) v | Read k => Read (f k) | Exists k => Exists (f k) | ListDir d => ListDir (f d)
   | Delete k => Delete (f k) | Size k => Size (f k) | Mtime k => Mtime (f k)
+  | Open k prog => Open (f k) prog | Stream k => Stream (f k)
   end.
 
 Fixpoint run {S E : Type} (step : S -> E -> S * obs) (s : S) (es : list E) : S * list obs :=
@@ -103,14 +115,15 @@ Definition wf_key (k : key) : Prop := k <> [] /\ Forall wf_seg k.
 Definition wf_op (o : op key) : Prop :=
   match o with
   | ListDir d => Forall wf_seg d          (* the table root [] is a legal directory *)
-  | Write k _ | Read k | Exists k | Delete k | Size k | Mtime k => wf_key k
+  | Write k _ | Read k | Exists k | Delete k | Size k | Mtime k | Stream k => wf_key k
+  | Open k prog => wf_key k /\ Forall wf_rop prog
   end.
 
 (* the exact keys (file names) an operation names; ListDir names a directory, not a key *)
 Definition op_key (o : op key) : list key :=
   match o with
   | ListDir _ => []
-  | Write k _ | Read k | Exists k | Delete k | Size k | Mtime k => [k]
+  | Write k _ | Read k | Exists k | Delete k | Size k | Mtime k | Open k _ | Stream k => [k]
   end.
 
 (* no key is a directory of another key: the key families a file system can hold *)
@@ -121,6 +134,9 @@ Definition store := list (key * bytes).
 
 Definition size_of (v : bytes) : Z := Z.of_nat (List.length v).
 
+(* a plain file holding v, driven by a seek/read program *)
+Definition file_obs (v : bytes) (prog : list rop) : obs := let '(os, final) := run_file v 0 prog in OOpened os final.
+
 Definition spec_step (st : store) (o : op key) : store * obs :=
   match o with
   | Write k v => (upsert key_eqb k v st, OUnit)
@@ -130,6 +146,8 @@ Definition spec_step (st : store) (o : op key) : store * obs :=
   | Delete k => (remove key_eqb k st, OUnit)
   | Size k => (st, match lookup key_eqb k st with Some v => OSize (size_of v) | None => OErr NotFound end)
   | Mtime k => (st, match lookup key_eqb k st with Some _ => OUnit | None => OErr NotFound end)
+  | Open k prog => (st, match lookup key_eqb k st with Some v => file_obs v prog | None => OErr NotFound end)
+  | Stream k => (st, match lookup key_eqb k st with Some v => OBytes v | None => OErr NotFound end)
   end.
 
 (* ---------------------------------------------------------------- S3 *)
@@ -146,6 +164,24 @@ Definition s3_head_object (b : bucket) (k : str) : s3res bytes :=
 Definition s3_put_object (b : bucket) (k : str) (v : bytes) : bucket := upsert str_eqb k v b.
 Definition s3_delete_object (b : bucket) (k : str) : bucket := remove str_eqb k b.
 Definition s3_list_objects (b : bucket) (p : str) : list str := filter (fun k => starts_with k p) (map fst b).
+
+(* GetObject with Range: bytes=first-last on the bucket as it is NOW *)
+Definition s3_get_range (b : bucket) (k : str) (first last : Z) : option bytes :=
+  match s3_get_object b k with S3Ok v => server_range v first last | S3Fail _ => None end.
+
+(* S3StorageBackend.get_size: one HEAD *)
+Definition s3_get_size (pfx : str) (b : bucket) (p : str) : Z + errk :=
+  match s3_head_object b (gen_get_s3_key pfx p) with
+  | S3Ok v => inl (size_of v)
+  | S3Fail c => inr (if str_eqb c gen_code_size_notfound then NotFound else ClientErr)
+  end.
+
+(* S3StorageBackend.open_seekable + a program on the reader: observations and the ranged GETs issued *)
+Definition s3_open (pfx : str) (b : bucket) (p : str) (prog : list rop) : obs * list (Z * Z) :=
+  match s3_get_size pfx b (gen_open_size_path p) with
+  | inl size => let '(os, final, rs) := run_rf_on size (s3_get_range b (gen_open_key pfx p)) 0 prog in (OOpened os final, rs)
+  | inr e => (OErr e, [])
+  end.
 
 (* S3StorageBackend with self.prefix = pfx *)
 Definition s3_step (pfx : str) (b : bucket) (o : op str) : bucket * obs :=
@@ -167,15 +203,17 @@ Definition s3_step (pfx : str) (b : bucket) (o : op str) : bucket * obs :=
         end)
   | ListDir p => (b, OList (map (gen_strip_prefix pfx) (s3_list_objects b (gen_list_prefix pfx p))))
   | Delete p => (s3_delete_object b (gen_get_s3_key pfx p), OUnit)
-  | Size p =>
-    (b, match s3_head_object b (gen_get_s3_key pfx p) with
-        | S3Ok v => OSize (size_of v)
-        | S3Fail c => if str_eqb c gen_code_size_notfound then OErr NotFound else OErr ClientErr
-        end)
+  | Size p => (b, match s3_get_size pfx b p with inl n => OSize n | inr e => OErr e end)
   | Mtime p =>
     (b, match s3_head_object b (gen_get_s3_key pfx p) with
         | S3Ok _ => OUnit
         | S3Fail c => if str_eqb c gen_code_mtime_notfound then OErr NotFound else OErr ClientErr
+        end)
+  | Open p prog => (b, fst (s3_open pfx b p prog))
+  | Stream p =>
+    (b, match s3_get_object b (gen_get_s3_key pfx p) with
+        | S3Ok v => OBytes v
+        | S3Fail c => if str_eqb c gen_code_open_notfound then OErr NotFound else OErr ClientErr
         end)
   end.
 
@@ -224,6 +262,8 @@ Definition local_step (s : lstate) (o : op key) : lstate * obs :=
         | Some _ => OUnit
         | None => if is_dir s k then OUnit else missing s k
         end)
+  | Open k prog => (s, match lookup key_eqb k (lfiles s) with Some v => file_obs v prog | None => missing s k end)
+  | Stream k => (s, match lookup key_eqb k (lfiles s) with Some v => OBytes v | None => missing s k end)
   end.
 
 (* the backends as the library calls them: with "/"-joined strings *)
@@ -241,7 +281,8 @@ Definition wf_keyb (k : key) : bool := match k with [] => false | _ => forallb w
 Definition wf_opb (o : op key) : bool :=
   match o with
   | ListDir d => forallb wf_segb d
-  | Write k _ | Read k | Exists k | Delete k | Size k | Mtime k => wf_keyb k
+  | Write k _ | Read k | Exists k | Delete k | Size k | Mtime k | Stream k => wf_keyb k
+  | Open k prog => wf_keyb k && forallb wf_ropb prog
   end.
 Definition prefix_freeb (ks : list key) : bool := forallb (fun a => forallb (fun b => negb (under a b)) ks) ks.
 Definition foreign_okb (pfx : str) (F : bucket) : bool :=
